@@ -76,6 +76,18 @@ func runC02(c *Ctx) {
 		prot, iv := gen.GoHeader(r, gen.HeaderOpts{Protected: true, MaxEntries: 6, Alg: algOpt, AlgSpell: r.Intn(5), FillTo: fill}, false)
 		unprot, _ := gen.GoHeader(r, gen.HeaderOpts{MaxEntries: 4}, iv != 0)
 		payload := gen.Payload(r, false)
+		// forced length-prefix boundaries of payload and external_aad inside the Sig_structure
+		bounds := []int{23, 24, 255, 256, 65535, 65536}
+		switch i % 16 {
+		case 3:
+			payload = r.Bytes(bounds[(i/16)%6])
+		case 7:
+			if mode != 1 || true {
+				ext = r.Bytes(bounds[(i/16)%6])
+			}
+		case 11:
+			payload, ext = r.Bytes(bounds[(i/16)%6]), r.Bytes(bounds[(i/96)%6])
+		}
 		untagged := r.Bool()
 
 		msg := &cose.Sign1Message{Headers: cose.Headers{Protected: prot, Unprotected: unprot}, Payload: payload}
@@ -110,7 +122,7 @@ func runC02(c *Ctx) {
 			return
 		}
 		want := refcose.Sign1Structure(content, ext, payload)
-		cls := fmt.Sprintf("sign1/sign/constructed/size=%s/ext=%s/untagged=%v", gen.SizeClass(len(content)), gen.ExternalClass(ext), untagged)
+		cls := fmt.Sprintf("sign1/sign/constructed/size=%s/ext=%s/extlen=%s/payload=%s/untagged=%v", gen.SizeClass(len(content)), gen.ExternalClass(ext), boundaryClass(len(ext)), boundaryClass(len(payload)), untagged)
 		rec.Class(cls)
 		if !eqBytes(spy.Last(), want) {
 			rec.Violate("tbs-mismatch", cls, fmt.Sprintf("signer got %s\nreference  %s", hexs(spy.Last()), hexs(want)), input)
@@ -134,6 +146,23 @@ func runC02(c *Ctx) {
 			rec.Violate("verify-path", "sign1-verify-constructed", fmt.Sprintf("Verify on a just-signed message: err=%v, verifier calls=%d", err, vspy.Calls), input)
 		}
 
+		// the payload buffer edited in place between two calls: the second call must sign/verify the new content
+		if len(msg.Payload) > 0 {
+			msg.Payload[len(msg.Payload)/2] ^= 0x55
+			want2 := refcose.Sign1Structure(content, ext, msg.Payload)
+			vspy3 := &mon.SpyVerifier{Alg: algv}
+			if guard(rec, "Sign1.Verify", input, func() { err = msg.Verify(ext, vspy3) }) {
+				return
+			}
+			rec.Eval(1)
+			if vspy3.Calls == 1 {
+				rec.Class("sign1/verify/payload-edited-in-place")
+				if !eqBytes(vspy3.Last(), want2) {
+					rec.Violate("tbs-stale", "sign1-payload-edited-in-place", "after an in-place edit of the payload buffer the verifier still received the old ToBeSigned", input)
+				}
+			}
+			msg.Payload[len(msg.Payload)/2] ^= 0x55
+		}
 		// metamorphic: other unprotected headers, tag/untag, nil vs empty external
 		unprot2, _ := gen.GoHeader(r, gen.HeaderOpts{MaxEntries: 5}, iv != 0)
 		m2 := &cose.Sign1Message{Headers: cose.Headers{Protected: msg.Headers.Protected, Unprotected: unprot2}, Payload: payload, Signature: msg.Signature}
@@ -241,6 +270,12 @@ func runC02(c *Ctx) {
 		n := 1 + i%6
 		ext := gen.External(r)
 		payload := gen.Payload(r, false)
+		switch i % 12 {
+		case 2, 3:
+			payload = r.Bytes([]int{255, 256, 65535, 65536, 23, 24}[(i/12)%6])
+		case 6, 7:
+			ext = r.Bytes([]int{255, 256, 65535, 65536, 23, 24}[(i/12)%6])
+		}
 		if i%2 == 0 {
 			// constructed
 			bodyProt, iv := gen.GoHeader(r, gen.HeaderOpts{Protected: true, MaxEntries: 4, FillTo: mon.Pick(r, 0, 0, 14, 230, 250)}, false)
@@ -373,4 +408,13 @@ func runC02(c *Ctx) {
 	rec.Require("Sign1Message.Verify", 100)
 	rec.Require("SignMessage.Verify", 50)
 	rec.RequireClasses(60)
+}
+
+// boundaryClass names lengths sitting exactly on a CBOR length-prefix boundary.
+func boundaryClass(n int) string {
+	switch n {
+	case 23, 24, 255, 256, 65535, 65536:
+		return fmt.Sprint(n)
+	}
+	return "other"
 }
